@@ -4,6 +4,8 @@ import KalignModel.Props.C09
 #print axioms Kalign.C09_explicit_default_noop
 #print axioms Kalign.C09_single_override
 #print axioms Kalign.C09_accept_indep
+#print axioms Kalign.C09_over_cap_rejected
+#print axioms Kalign.C09_defaults_within_cap
 #print axioms Kalign.C09_defaults_dna
 #print axioms Kalign.C09_defaults_internal
 #print axioms Kalign.C09_defaults_protein
